@@ -7,12 +7,12 @@ VARIABLE l
 TraceLog == ndJsonDeserialize("trace.ndjson")
 Ev == TraceLog[l]
 AsSet(s) == {s[i] : i \in 1..Len(s)}
-CallOf(e) == [m |-> e.m, named |-> e.named, signers |-> AsSet(e.signers), ctx |-> e.ctx, ep |-> e.ep]
+CallOf(e) == [m |-> e.m, named |-> e.named, signers |-> AsSet(e.signers), ctx |-> e.ctx, ep |-> e.ep, path |-> e.path]
 Judge == LET c == CallOf(Ev)
              due == Due(c)
          IN PrintT(<<"VERDICT", ToJson([i |-> l, m |-> c.m, witnessed |-> Witnessed(c), allowed |-> Allowed(c),
                                         ok |-> C18Row(Witnessed(c), due, Ev.got, Ev.changed)])>>)
-TraceInit == TLCSet(1, 1) /\ l = 1 /\ call = [m |-> "", named |-> "", signers |-> {}, ctx |-> <<>>, ep |-> NoEpoch]
+TraceInit == TLCSet(1, 1) /\ l = 1 /\ call = [m |-> "", named |-> "", signers |-> {}, ctx |-> <<>>, ep |-> NoEpoch, path |-> "verified"]
              /\ verdict = "pending" /\ changed = FALSE
 TraceNext == /\ l <= Len(TraceLog)
              /\ Ev.m \in Methods /\ Ev.got \in {"accept", "reject"}
